@@ -5,9 +5,39 @@ HERE = os.path.dirname(os.path.dirname(os.path.abspath(__file__)))
 PROPS = [json.loads(l) for l in open(os.path.join(HERE, 'properties.jsonl'))]
 
 CLAIMED = {
+ 'C01': dict(
+   category='proof',
+   text='The real Solver.solve, _attempt_field (incl. its self-recursion by contract), _attempt_input, _add_unattempted, _add_input_spec and the tracker methods are executed symbolically over abstract views (maps, multisets, sets) from an arbitrary state satisfying the invariant; the inductive invariant "no lost line" (every scheduled line has a value, is recorded unimplemented, is queued, waits on a field or input with a registered waiter, or is in the released list being iterated) with its coherence clauses is proved at entry, across every loop of solve() (havoc rule) and through every outcome of an attempt; at exit z3 proves: True is returned only if every scheduled line has a value, nothing is unimplemented and no line waits; False always comes with a non-empty diagnostic; exceptions of a line, an unsupported form or an invalid answer propagate unchanged. habutax.solve(args) is executed symbolically with all externals by contract: the success banner is printed iff solve() returned True, each non-empty diagnostic list is listed, no banner on abort. 834 obligations.',
+   design_ref='DESIGN 3, 4 C01',
+   note="Assumptions: the line oracle A-PURE (a line evaluation ends in exactly one of value / UnmetDependency of an unvalued line / MissingInput of a declared unprovided input / MissingInputSpecification of an undeclared input / FieldNotImplemented / other exception), A-FORM/A-CAT (a form's inputs, lines, required lines are a fixed function of its name; C17), A-BAG (order-irrelevant lists as multisets, hence every attempt/drain/prompt order), A-GEN, A-PROMPT; precondition of solve(): distinct not-yet-loaded form names, field_names=[] . A value may be rewritten only by re-evaluation of the same line. A non-discharged obligation is reported as a violation only when the toy-form concretisation search reproduces it on the real Solver; otherwise undecided (exit 2).",
+   technique='inductive invariant + method contracts on the real solver code (symbolic execution with abstract views, havoc loop rule), z3'),
+ 'C03': dict(
+   category='proof',
+   text='Obligations on the real _attempt_field / solve: a line is evaluated against FormAccessors built over the current input store and the current value store of that very attempt; the stored value is exactly the evaluation result and the line is then announced as met; values and inputs are never removed and a value is never overwritten except by re-evaluation of the same line; a wait on a field (input) is registered only while that field has no value (input not provided) or it is about to be drained; all invariant across every loop of solve() and every attempt order (multiset abstraction).',
+   design_ref='DESIGN 4 C03',
+   note="Assumptions: the line oracle A-PURE (a line evaluation ends in exactly one of value / UnmetDependency of an unvalued line / MissingInput of a declared unprovided input / MissingInputSpecification of an undeclared input / FieldNotImplemented / other exception), A-FORM/A-CAT (a form's inputs, lines, required lines are a fixed function of its name; C17), A-BAG (order-irrelevant lists as multisets, hence every attempt/drain/prompt order), A-GEN, A-PROMPT; precondition of solve(): distinct not-yet-loaded form names, field_names=[] . A value may be rewritten only by re-evaluation of the same line. A non-discharged obligation is reported as a violation only when the toy-form concretisation search reproduces it on the real Solver; otherwise undecided (exit 2)." + ' The fixed-point statement itself additionally needs stability of the oracle under growth of (inputs, values) (A-PURE); ValueStore.to_config is not under contract yet.',
+   technique='frame and invariant obligations on the real solver code, z3'),
+ 'C04': dict(
+   category='proof',
+   text='Solver._add_form is verified against its contract with loop invariants on the real body (full add: exactly the declared inputs and lines are registered, the form takes part, exactly its required lines are scheduled and queued; input-only: only inputs registered, nothing scheduled, form does not take part; unknown class: NotImplementedError and nothing changed). _attempt_field schedules exactly the demanded line plus the required lines of a newly loaded form, and queues only newly scheduled lines. Invariants across solve(): registered lines belong to loaded forms, loaded forms have all their lines registered and their required lines scheduled; with the C01 exit condition a successful solution holds a value for exactly the scheduled set.',
+   design_ref='DESIGN 4 C04',
+   note="Assumptions: the line oracle A-PURE (a line evaluation ends in exactly one of value / UnmetDependency of an unvalued line / MissingInput of a declared unprovided input / MissingInputSpecification of an undeclared input / FieldNotImplemented / other exception), A-FORM/A-CAT (a form's inputs, lines, required lines are a fixed function of its name; C17), A-BAG (order-irrelevant lists as multisets, hence every attempt/drain/prompt order), A-GEN, A-PROMPT; precondition of solve(): distinct not-yet-loaded form names, field_names=[] . A value may be rewritten only by re-evaluation of the same line. A non-discharged obligation is reported as a violation only when the toy-form concretisation search reproduces it on the real Solver; otherwise undecided (exit 2)." + ' "Every line that any contained line read" rests on the oracle (a read of an unvalued line raises UnmetDependency). ValueStore.to_config/solution() not yet under contract.',
+   technique='method contract with loop invariants on the real _add_form + scheduling frame obligations, z3'),
+ 'C13': dict(
+   category='proof',
+   text='At the only prompt call site of the real solver z3 proves, for every state reachable under the invariant: prompting happens only while not refused, the asked input is declared, not yet supplied, has a registered waiting line, and needed_by is exactly the list of lines registered as waiting on it (registrations come only from MissingInput raised by that line); answers are stored in the input store before anything else can fail and never removed.',
+   design_ref='DESIGN 4 C13',
+   note="Assumptions: the line oracle A-PURE (a line evaluation ends in exactly one of value / UnmetDependency of an unvalued line / MissingInput of a declared unprovided input / MissingInputSpecification of an undeclared input / FieldNotImplemented / other exception), A-FORM/A-CAT (a form's inputs, lines, required lines are a fixed function of its name; C17), A-BAG (order-irrelevant lists as multisets, hence every attempt/drain/prompt order), A-GEN, A-PROMPT; precondition of solve(): distinct not-yet-loaded form names, field_names=[] . A value may be rewritten only by re-evaluation of the same line. A non-discharged obligation is reported as a violation only when the toy-form concretisation search reproduces it on the real Solver; otherwise undecided (exit 2)." + ' The re-run clause (write back, solve again: nothing asked, identical solution) needs the uniqueness lemma of C05 and A-CFG and is NOT discharged here.',
+   technique='call-site obligations under the solver invariant, z3'),
+ 'C20': dict(
+   category='proof',
+   text='habutax.solve(args) is executed symbolically with Solver.solve() raising any of KeyboardInterrupt, EOFError, NotImplementedError, RuntimeError, AssertionError or returning: on every exit with --writeback-input the input store is written to the input file after the solve, the file is created before it is read, and nothing is written without the option. Inside Solver.solve every answer given is in the store at every normal and exceptional exit and no input present at entry is lost (frame obligations across all loops).',
+   design_ref='DESIGN 4 C20',
+   note="Assumptions: the line oracle A-PURE (a line evaluation ends in exactly one of value / UnmetDependency of an unvalued line / MissingInput of a declared unprovided input / MissingInputSpecification of an undeclared input / FieldNotImplemented / other exception), A-FORM/A-CAT (a form's inputs, lines, required lines are a fixed function of its name; C17), A-BAG (order-irrelevant lists as multisets, hence every attempt/drain/prompt order), A-GEN, A-PROMPT; precondition of solve(): distinct not-yet-loaded form names, field_names=[] . A value may be rewritten only by re-evaluation of the same line. A non-discharged obligation is reported as a violation only when the toy-form concretisation search reproduces it on the real Solver; otherwise undecided (exit 2)." + ' A-CFG for what InputStore.write puts on disk; a crash inside the write itself is outside the listed interruptions; prompt_input is covered in C11.',
+   technique='exceptional postconditions by symbolic execution of the real code (try/finally semantics), z3'),
  'C06': dict(
    category='proof',
-   text='Every method of the real DependencyTracker is executed symbolically from an arbitrary well-formed state (dict-of-lists and list abstracted as multisets) and its contract discharged by z3: add_unmet/meet change exactly one count and nothing else; has_unmet/has_met/unmet_dependencies are exact and side-effect free; the drained generator met_dependents() is verified with a pointwise loop invariant (conservation released+remaining = registered for met keys, unmet keys untouched, a key with waiters stays met) and a lexicographic variant, giving: every registered wait on a met dependency is released exactly once, none on an unmet one, the met list ends empty, for every history and every order. Solver-level work bounds are stated in contracts/core/solver.py.',
+   text='Every method of the real DependencyTracker is executed symbolically from an arbitrary well-formed state (dict-of-lists and list abstracted as multisets) and its contract discharged by z3: add_unmet/meet change exactly one count and nothing else; has_unmet/has_met/unmet_dependencies are exact and side-effect free; the drained generator met_dependents() is verified with a pointwise loop invariant (conservation released+remaining = registered for met keys, unmet keys untouched, a key with waiters stays met) and a lexicographic variant, giving: every registered wait on a met dependency is released exactly once, none on an unmet one, the met list ends empty, for every history and every order. At solver level the prompt-site obligations give asked-at-most-once; termination of solve() and the evaluation bound per line are covered only by a bounded stand-in (toy programs on the real solver), labelled bounded.',
    design_ref='DESIGN 3, 4 C06',
    note='A-BAG (order-irrelevant lists as multisets), A-GEN (generator drained atomically at its call sites). A non-discharged obligation is concretised on the real class over small states; only then is it reported as a violation.',
    technique='method contracts + loop invariant/variant on the real code via symbolic execution with multiset views, z3'),
